@@ -278,8 +278,8 @@ function exec(ex, kind, a, objs, ptr, bufs, violations, t, i, mem, ctx) {
   }
 }
 
-const lines = fs.readFileSync(0, 'utf8').split('\n').filter(x => x.length > 0);
-for (const line of lines) {
+function handleLine(line) {
+  if (line.length === 0) return;
   // u64 values (ranker table seeds) do not survive JSON.parse: quote them first
   const fam = JSON.parse(line.replace(/"Table":(\d+)/g, '"Table":"$1"'));
   const r = runFamily(fam);
@@ -300,5 +300,9 @@ for (const line of lines) {
       }
     }));
   }
-  console.log(JSON.stringify(out));
+  process.stdout.write(JSON.stringify(out) + '\n');
 }
+
+// stream stdin line by line (a thorough run pipes hundreds of MB through here)
+const rl = require('readline').createInterface({ input: process.stdin, crlfDelay: Infinity });
+rl.on('line', handleLine);
